@@ -363,7 +363,9 @@ def run(ctx):
         'enable_tls_client_auth (and the option absent) x 5 certificate kinds, and every plugin section name the session rule accepts '
         '(auth:slugs, auth:slugs:primary, auth:slugs2, auth:slugs-backup, auth:slugs_eu, ... alone and in pairs), all through a real '
         'KmipServer; common names with leading/trailing/double white space, tab, NBSP, case and Unicode-form variants next to a '
-        'SLUGS service that knows the tidy names only.')
+        'SLUGS service that knows the tidy names only; requests whose header carries a username/password, device or attestation credential naming '
+        'ANOTHER user (Create, Get/GetAttributes/Activate on that user\'s objects) over a connection of CN=mallory: owner and access '
+        'decisions must be mallory\'s.')
     ctx.regen(only=['enums'])
     ctx.prove('props/C17.v')
 
@@ -511,6 +513,59 @@ def run(ctx):
                 spec = sessdrv.default_spec(create + get + nego_for(len(cases)), cert=((cn,), 'client'), tls=True, plugins=plugins)
                 run_cell(label, spec, None, model=all(32 <= ord(ch) < 127 for ch in cn))
                 ctx.count('common-name.variants')
+        # the identity the ENGINE evaluates under (owner of created objects, access decisions) is the one the session
+        # established - whatever credential the client writes into its own request header (real engine behind the real session)
+        from kmip.core import enums as E, objects as cobj
+        from kmip.core.messages import contents as kcontents
+
+        def header_auth(kind, name):
+            if kind == 'username':
+                cred = cobj.Credential(E.CredentialType.USERNAME_AND_PASSWORD, cobj.UsernamePasswordCredential(name, 'any password'))
+            elif kind == 'username-nopw':
+                cred = cobj.Credential(E.CredentialType.USERNAME_AND_PASSWORD, cobj.UsernamePasswordCredential(name))
+            elif kind == 'device':
+                cred = cobj.Credential(E.CredentialType.DEVICE, cobj.DeviceCredential(device_serial_number='sn-1', password='pw',
+                                       device_identifier=name, network_identifier=name, machine_identifier=name, media_identifier=name))
+            else:
+                cred = cobj.Credential(E.CredentialType.ATTESTATION, cobj.AttestationCredential(
+                    nonce=cobj.Nonce(nonce_id=b'\x01', nonce_value=b'\x02'), attestation_type=E.AttestationType.TPM_QUOTE,
+                    attestation_measurement=name.encode(), attestation_assertion=name.encode()))
+            return kcontents.Authentication([cred])
+
+        def owners(dump):
+            return {r['uid']: r.get('owner') for r in dump.get('managed_objects', [])}
+        alice_uid = '1'                                     # the seed store's key 1 belongs to 'alice'
+        slugs_mallory = dict(block(), users={'mallory': ['Group M'], 'alice': ['Group A']})
+        for kind, v, plugins in itertools.product(('username', 'username-nopw', 'device', 'attestation'), ((1, 0), (1, 2), (1, 4), (2, 0)),
+                                                  ([], [slugs_mallory])):
+            if kind == 'attestation' and v < (1, 2):
+                continue
+            for b_ in plugins:
+                b_['user'], b_['groups'] = ('status', 200), ('status', 200, {'groups': b_['users']['mallory']})
+            try:
+                mk = lambda items: sessdrv.encode_request(b(None, items, version=v, auth=header_auth(kind, 'alice')), v)
+                frames = [mk([kdrv.create()]), mk([kdrv.get(alice_uid)]), mk([kdrv.get_attributes(alice_uid)]), mk([kdrv.activate('2')])]
+            except Exception:
+                continue                                   # this credential type does not exist under this version
+            label = 'header-credential:%s(alice)|v%d.%d|cert=mallory|%s' % (kind, v[0], v[1], 'slugs' if plugins else 'none')
+            spec = sessdrv.default_spec(b''.join(frames), cert=(('mallory',), 'client'), tls=True, plugins=plugins)
+            obs = run_cell(label, spec, None)
+            ctx.count('header-credential.' + kind)
+            for i, f in enumerate(obs['frames']):
+                w = {'config': label, 'frame_index': i, 'frame_hex': f['frame'].hex()[:1200], 'cert': spec['cert'], 'tls': True, 'plugins': plugins}
+                before, after = owners(f['dump_before']), owners(f['dump_after'])
+                made = [u for u in after if u not in before]
+                if any(after[u] != 'mallory' for u in made):
+                    ctx.violation({'kind': 'evaluated-under-another-identity', 'effect': 'owner'}, dict(w, owners={u: after[u] for u in made}),
+                                  'an object created over the connection of certificate CN=mallory is owned by %r (named in the request header)'
+                                  % [after[u] for u in made][0])
+                if i in (1, 2, 3) and len(f['sent']) == 1:
+                    env = sessdrv.check_response_envelope(f['sent'][0])
+                    if any(it['status'] == 0 for it in env['items']):
+                        ctx.violation({'kind': 'evaluated-under-another-identity', 'effect': 'access'}, dict(w, answer=env),
+                                      "mallory's request on alice's object succeeded because the request header names alice")
+                if f['dump_before'] != f['dump_after'] and i in (1, 2, 3):
+                    ctx.violation({'kind': 'evaluated-under-another-identity', 'effect': 'store'}, w, "mallory's request changed alice's object")
         # the service's answers change while the connection is open: every request is authenticated afresh
         for names in (['ok', '404-user', 'ok'], ['404-user', 'ok', 'unreachable'], ['ok', 'ok-nogroups', '500-user-only'],
                       ['unreachable', 'unreachable', 'ok'], ['ok', '404-groups', '404-groups']):
